@@ -61,11 +61,34 @@ class C04(Prop):
             pairs = [sc.gen_pair(rng, kind, float(h), lv) for _ in range(n)]
             pairs.insert(rng.randint(0, n), bad)
             yield {"stream": "outside", "kind": kind, "h": h, "level": lv, "y": [p[0] for p in pairs], "z": [p[1] for p in pairs]}
+        for k in range(N // 8):
+            # integer-typed arrays (the documented domain does not depend on the dtype): values where int32 / int64
+            # products overflow, unsigned arrays with z < y
+            kind, h, lv = self.configs(rng)
+            if kind == "logloss":
+                continue
+            dt = rng.choice(["int32", "int64", "uint8", "int16"])
+            hi = {"int32": 60000, "int64": 4_000_000_000, "uint8": 200, "int16": 300}[dt]
+            n = rng.randint(1, 4)
+            ys = [float(rng.choice([1, 2, 3, rng.randint(1, hi)])) for _ in range(n)]
+            zs = [float(rng.choice([1, 2, 5, rng.randint(1, hi)])) for _ in range(n)]
+            yield {"stream": "intdtype", "dtype": dt, "kind": kind, "h": h, "level": lv, "y": ys, "z": zs}
         for k in range(60):
             kind = rng.choice(["hes", "hqs", "pinball"])
             yield {"stream": "ctor", "kind": kind, "h": rng.choice([1.0, 2.0, 3.0]), "level": rng.choice([0.0, 1.0, -0.5, 1.5, 2.0]), "y": [1.0], "z": [2.0]}
 
     def impl(self, case):
+        if case["stream"] == "intdtype":
+            import numpy as np
+
+            try:
+                sf = sc.make_sf(case["kind"], case["h"], case["level"])
+                per = sf.score_per_obs(np.array(case["y"]).astype(case["dtype"]), np.array(case["z"]).astype(case["dtype"]))
+                return {"per_obs": [float(v) for v in np.asarray(per, dtype=float)]}
+            except Exception as e:
+                from .core import exc_class
+
+                return {"err": exc_class(e)}
         return sc.call_score(case["kind"], case["h"], case["level"], case["y"], case["z"])
 
     def model_request(self, case):
@@ -87,7 +110,7 @@ class C04(Prop):
                 if a != b:
                     return f"score[{i}] = {a!r}, model {b!r}"
                 continue
-            if abs(a - b) > 1e-11 * s + 1e-9 * min(abs(a), abs(b)):
+            if abs(a - b) > 1e-11 * s + 1e-9 * min(abs(a), abs(b)) and not (abs(a - b) <= 1e-9 * max(abs(a), abs(b))):
                 return f"score[{i}] = {a!r}, model {b!r} (y={case['y'][i]}, z={case['z'][i]})"
         return None
 
